@@ -427,6 +427,17 @@ func (x *c10) sendCovered() {
 							launched = true // any goroutine at all, whatever it is given
 						}
 					}
+					// ... including the ones started in a loop this path went through (the launches are on the loop's
+					// back edges, not on the path that leaves it)
+					if len(q.LoopAt) > 0 {
+						for _, bp := range ps {
+							for j := range bp.Events {
+								if bp.Events[j].Kind == "go" {
+									launched = true // some loop of this function launches; this path has been through its loops
+								}
+							}
+						}
+					}
 					if !launched && waitIdx < 0 {
 						continue
 					}
@@ -888,6 +899,41 @@ func (x *c10) fanOut() {
 				}
 				if len(inner.li.Back) != 1 {
 					ok, why = false, "the fan-out body branches"
+				}
+			}
+			// nobody is left out by a way round the loops: a path that returns without having entered the fan-out has
+			// found that there is nobody to send to, or (slice variants) nothing to send
+			if ok {
+				first := loops[0]
+				for _, p := range ps {
+					if p.End != EndReturn {
+						continue
+					}
+					if _, entered := p.LoopAt[first.Hdr]; entered {
+						continue
+					}
+					nothing := false
+					for _, cd := range p.Conds {
+						pl, kind, isInt := cd.Rel().IntNorm()
+						if !isInt {
+							continue
+						}
+						for _, at := range pl.Atoms {
+							if at.Op != "builtin" || at.Sym != "len" || len(at.Args) != 1 {
+								continue
+							}
+							if !(x.isSubsLoad(at.Args[0], recv) || (row.slice && at.Args[0].Key() == evp.Key())) {
+								continue
+							}
+							l := ToPoly(at)
+							if kind == "=" && pl.Equal(canonSign(l)) || kind == ">" && pl.Equal(polyConst(1).Add(l, -1)) {
+								nothing = true
+							}
+						}
+					}
+					if !nothing {
+						ok, why = false, "a path ("+p.CondString()+") returns without publishing although subscribers (and events) may be there"
+					}
 				}
 			}
 		}
@@ -1421,6 +1467,10 @@ func (x *c10) withOnly() {
 		if it == nil || !x.isSubsLoad(it.over, recv) || !it.full {
 			ok, why = false, "does not range over the whole subscriber list"
 		} else {
+			matchAdded := false
+			defer func() {
+				_ = matchAdded
+			}()
 			for _, p := range it.li.Back {
 				eq := ""
 				for _, cd := range p.Conds {
@@ -1445,6 +1495,8 @@ func (x *c10) withOnly() {
 				case "==":
 					if !appended {
 						ok, why = false, "a matching subscriber is not added to the clone"
+					} else {
+						matchAdded = true
 					}
 				case "!=":
 					if appended {
@@ -1476,6 +1528,55 @@ func (x *c10) withOnly() {
 					continue
 				}
 				clone := p.Rets[0]
+				// the search form: the loop is left at the match and the clone gets a one-element list of its own holding
+				// exactly the matched subscriber
+				for _, cd := range p.Conds {
+					r := cd.Rel()
+					if cd.NEv < p.LoopAt[it.li.Hdr] || r.B == nil || r.Op != "==" || !((it.isElem(r.A) && r.B.Key() == sub.Key()) || (it.isElem(r.B) && r.A.Key() == sub.Key())) {
+						continue
+					}
+					good := false
+					for i := range p.Events {
+						e := &p.Events[i]
+						if e.Kind != "store" || !isFieldAddr(e.Addr, x.fSubs, clone) {
+							continue
+						}
+						arr := e.Val
+						for arr != nil && arr.Op == "slice" {
+							arr = arr.Args[0]
+						}
+						if arr == nil || arr.Op != "alloc" {
+							continue
+						}
+						n, right := 0, false
+						for j := range p.Events {
+							f := &p.Events[j]
+							if f.Kind == "store" && f.Addr.Op == "iaddr" && f.Addr.Args[0].Key() == arr.Key() {
+								n++
+								right = it.isElem(f.Val) && f.Addr.Args[1].IsConst("0")
+							}
+						}
+						good = n == 1 && right
+					}
+					// (a path on which the index of the match equals -1 does not exist: positions are not negative)
+					impossible := false
+					for _, cd2 := range p.Conds {
+						if pl, kind, isInt := cd2.Rel().IntNorm(); isInt && kind == "=" {
+							// idx + 1 == 0 with idx the current position
+							if it.idx != nil && pl.Equal(canonSign(ToPoly(it.idx).Add(polyConst(1), 1))) {
+								impossible = true
+							}
+						}
+					}
+					if impossible {
+						continue
+					}
+					if good {
+						matchAdded = true
+					} else {
+						ok, why = false, "the search stops at the matching subscriber but the clone does not receive a list of its own holding exactly that subscriber"
+					}
+				}
 				h, t := false, false
 				for i := range p.Events {
 					e := &p.Events[i]
@@ -1489,6 +1590,9 @@ func (x *c10) withOnly() {
 				if !h || !t {
 					ok, why = false, "the timeout configuration is not copied to the clone"
 				}
+			}
+			if ok && !matchAdded {
+				ok, why = false, "no path adds the matching subscriber to the clone"
 			}
 		}
 	}
